@@ -798,6 +798,42 @@ def writer_error_scan_rule(P, rep, rid):
         raise AnalysisBroken('state_sync_process: loop over the writer error array not found')
 
 
+def writer_error_counted_rule(P, rep, rid):
+    """io_write_next hands over, per error kind, HOW MANY parity writes failed since the previous call.  Single-threaded that can only
+    be the present stripe; with write-behind threads it covers every stripe the writers completed meanwhile.  Adding 1 per
+    collection makes the error total -- and with it the stop at the -L limit -- depend on the interleaving.  Rule: in the loop over
+    the writer errors every counter is advanced by the array entry."""
+    import re
+    f = P.fn('state_sync_process')
+    rep.analysed(f)
+    rep.rule(rid, 'state_sync_process: the error counters are advanced by the number of failed writes reported (writer_error[j]), not by one per collection', 2)
+    wn = [c for c in f.calls() if c.callee == 'io_write_next' or (c.callee is None and c.target and f.expr(c.target) == 'io_write_next')]
+    arr = [a for a in f.all_insts() if a.op == 'alloca' and a.id not in f.arg_allocas() and any(any(f.strip(o) == ['i', a.id] or (f.inst_of(o) is not None and f.inst_of(o).op == 'getelementptr' and f.strip(f.inst_of(o).ops[0]) == ['i', a.id]) for o in c.ops) for c in wn)]
+    arr = [a for a in arr if re.match(r'\[(\d+) x i32\]', a.ty or '')]
+    if len(arr) != 1:
+        raise AnalysisBroken('state_sync_process: writer error array not found')
+    n = 0
+    for h, body in f.loops.items():
+        reads = [i for i in f.all_insts() if i.block in body and i.op == 'getelementptr' and f.strip(i.ops[0]) == ['i', arr[0].id] and len(i.ops) == 3 and f.const_of(i.ops[2]) is None]
+        if not reads or any(h2 != h and h2 in body and any(r.block in f.loops[h2] for r in reads) for h2 in f.loops):
+            continue
+        for i in f.all_insts():
+            if i.block not in body or i.op != 'store':
+                continue
+            v = f.inst_of(i.ops[0])
+            tgt = f.expr(i.ops[1]).lstrip('&')
+            if v is None or v.op != 'add' or tgt not in ('io_error', 'error', 'silent_error'):
+                continue
+            n += 1
+            step = [o for o in v.ops if f.expr(o) != tgt]
+            by_entry = bool(step) and all((arr[0].var or 'writer_error') + '[' in f.xexpr(o) for o in step)
+            rep.check(by_entry, rid, '%s advanced by the reported count' % tgt, i.loc(),
+                      '%s += %s' % (tgt, f.xexpr(step[0]) if step else '?') if by_entry else '%s is advanced by %s for a collection that may report several failed writes: two failed stripes count as 2 single-threaded and as 1 when the writer thread completes both before the next collection; the stop at the error limit (-L) is taken or not depending on the interleaving' % (tgt, f.xexpr(step[0]) if step else '?'),
+                      function='state_sync_process', construct='%s per collection' % tgt)
+    if n < 2:
+        raise AnalysisBroken('state_sync_process: counters of the writer error loop not found (%d)' % n)
+
+
 def writer_report_unconditional_rule(P, rep, rid):
     """io_write_next hands the errors of the parity writers to the engine (and clears them).  It must do so on every call, also for a
     stripe whose parity write is skipped: errors delivered only together with a scheduled write are lost when every stripe after the
